@@ -151,6 +151,9 @@ func (w *World) finish() {
 			w.Probes["fault_fs_"+k] += int64(v)
 		}
 	}
+	if w.Sim.StallsFired > 0 {
+		w.Probes["fault_stalled_goroutine"] += int64(w.Sim.StallsFired)
+	}
 	if len(w.Sim.MapRaces) > 0 {
 		w.Probes["map_races_seen"] += int64(len(w.Sim.MapRaces))
 	}
@@ -203,6 +206,7 @@ func (w *World) init(over map[string]int) {
 	scfg.HB = w.cfg("hb") != 0
 	scfg.TrackAlloc = w.cfg("hb") != 0
 	scfg.FnYield = w.cfg("fnyield") != 0
+	scfg.Stalls, scfg.StallLen = w.cfg("stalls"), w.cfg("stall_len")
 	if w.cfg("fifo_senders") != 0 {
 		scfg.FIFOSubstr = ".outbox/go"
 	}
